@@ -3202,6 +3202,7 @@ void SGXMLScanner::scanReset(const InputSource& src)
         resetUIntPool();
     }
     fUndeclaredAttrRegistry->removeAll();
+    fElemNonDeclPool->removeAll();
 }
 
 
